@@ -128,6 +128,18 @@ def run(ctx):
         ch = tlv.split(p.read())
         if any(cid == b"SLnK" for cid, _ in ch):
             sources.append(("slotclaim%d~zeroslots" % i, tlv.join([(cid, bytes(len(pl)) if cid == b"SLnK" else pl) for cid, pl in ch]), True))
+    # files that carry values beyond the nominal ranges of RANGED controllers, in and behind sections with embedded
+    # containers: the statement counts them among the loadable files - a refusal to load one is reported, not skipped
+    must_load = set()
+    for k in range(4 if q else 40):
+        pj = api.Project()
+        pj.attach_module(gen.rand_module(rnd, cl[rnd.choice(["MetaModule", "Sampler"])], spec, depth=1, in_project=True))
+        pj.attach_module(gen.rand_module(rnd, cl[rnd.choice(["Amplifier", "Filter", "Echo"])], spec, depth=0, in_project=True))
+        base_ = tlv.to_json_nested(pj.read())
+        for j, (sec, _c) in enumerate(fmt.ranged_cval_sections(base_, spec)):
+            nm = "beyond-range%d.%d" % (k, j)
+            sources.append((nm, tlv.from_json_nested(fmt.out_of_range_variant(base_, sec, rnd)), True))
+            must_load.add(nm)
     traces = []
     skipped = 0
     prev = {}
@@ -137,6 +149,9 @@ def run(ctx):
         ev = resave_event(data, spec, cycles, w=False, other=prev.get(kind) if len(traces) % 2 else None)
         if not mutated:
             prev[kind] = data
+        if ev is None and name in must_load:
+            traces.append({"id": name, "events": [fmt.load_event(data, spec)]})
+            continue
         if ev is None:
             skipped += 1          # not loadable: outside the property's quantifier
             continue
